@@ -24,14 +24,14 @@ echo "== demo with patch (expect FAIL)" >>"$log"
 go test -vet=off -count=1 -run "$rx" "$demopkg" >>"$log" 2>&1; d1=$?
 echo "== existing tests with patch (expect PASS): $pkgs" >>"$log"
 rm -f "$wt/$dest"/zz_seed*_test.go "$wt/$dest"/zz_*demo*_test.go
-go test -vet=off -count=1 -p 4 $pkgs >"$log.pkgs" 2>&1; t1=$?
+go test -vet=off -count=1 -p 4 -timeout 60m $pkgs >"$log.pkgs" 2>&1; t1=$?
 cat "$log.pkgs" >>"$log"
 if [ $t1 -ne 0 ]; then
   # wall-clock assertions in a few tests are load-sensitive: re-run only the failing packages, alone
   failed=$(grep '^FAIL[[:space:]]' "$log.pkgs" | awk '{print $2}' | sort -u)
   if [ -n "$failed" ]; then
     echo "== re-running failing packages alone: $failed" >>"$log"
-    go test -vet=off -count=1 -p 1 $failed >>"$log" 2>&1; t1=$?
+    go test -vet=off -count=1 -p 1 -timeout 60m $failed >>"$log" 2>&1; t1=$?
   fi
 fi
 rm -f "$log.pkgs"
